@@ -134,6 +134,8 @@ def table():
         m = json.load(open(os.path.join(d, "meta.json")))
         r = json.load(open(os.path.join(d, "result.json"))) if os.path.exists(os.path.join(d, "result.json")) else {}
         demo = "yes" if r.get("demo_clean_passes") and r.get("demo_fails_with_patch") else ("no" if r else "?")
+        if r.get("obsolete") or r.get("unreachable"):
+            r = dict(r, caught_by=r.get("caught_by"))
         print("| %s: %s | %s | %s | %s | %s | %s |" % (sid, str(m.get("summary", ""))[:160].replace("|", "/"), m["property"],
               str(m.get("needs", ""))[:140].replace("|", "/"), demo, {True: "yes", False: "NO"}.get(r.get("suite_passes"), "?"),
               ", ".join(r.get("caught_by", [])) or ("MISSED" if r.get("checks") else "?")))
